@@ -1730,15 +1730,19 @@ def remove_redundant_transpose_pairs_ir(graph: ir.Graph) -> None:
                 chain_nodes: List[ir.Node] = [T1]
                 allowed_nodes: List[ir.Node] = []
                 cur = consumers[0]
+                walked_val = T1_out
                 T2: Optional[ir.Node] = None
                 steps = 0
                 while steps < 8:
                     steps += 1
                     m = cur
-                    if _is_first_input_passthrough(m):
+                    # The walked value has to be the node's data (first) input:
+                    # CastLike only reads the TYPE of its second operand.
+                    if _is_first_input_passthrough(m) and _first_input(m) is walked_val:
                         chain_nodes.append(m)
                         allowed_nodes.append(m)
                         cur_val = _node_output(m)
+                        walked_val = cur_val
                         next_nodes = _consumer_nodes(nodes, cur_val)
                         if len(next_nodes) != 1:
                             break
